@@ -39,9 +39,32 @@ class Spec:
         return self.fn(*[env[p] for p in self.parents])
 
 
+GEOMS = ["step", "kl", "cont", "disc", "mapped"]
+
+
+def make_geom(v):
+    """geometry of variable v: the parameter dimension is always v.dim; expansion geometries have a
+    different function dimension (StepExpansion: 3k+1 nodes, KLExpansion: 2k+3 nodes)"""
+    g = getattr(v, "geom", None)
+    if g is None:
+        return v.dim
+    from cuqi import geometry as G
+    k = v.dim
+    if g == "step":
+        return G.StepExpansion(np.linspace(0, 1, 3 * k + 1), n_steps=k)
+    if g == "kl":
+        return G.KLExpansion(np.linspace(0, 1, 2 * k + 3), num_modes=k)
+    if g == "cont":
+        return G.Continuous1D(k)
+    if g == "disc":
+        return G.Discrete(k)
+    return G.MappedGeometry(G.Continuous1D(k), map=np.exp)
+
+
 class Var:
     def __init__(self, name, dim, kind):
         self.name, self.dim, self.kind = name, dim, kind  # kind: 'vec' | 'pos'
+        self.geom = None
         self.family = None
         self.attrs = {}      # attr -> Spec
         self.vals = []       # candidate values (np arrays of length dim)
@@ -101,6 +124,10 @@ def gen_graph(rng, thorough):
             if not ps:
                 c = np.array([rng.randint(-2, 2) for _ in range(v.dim)], dtype=float)
                 v.attrs[loc_attr] = Spec([], lambda c=c: c)
+            elif len(ps) == 1 and ps[0].dim == v.dim and not extra_pos and rng.random() < 0.2:
+                # a callable that hands back the very object it was given (identity)
+                v.attrs[loc_attr] = Spec([ps[0].name], lambda x: x)
+                v.attrs[loc_attr].identity = True
             else:
                 mats = [_imat(rng, v.dim, p.dim) for p in ps]
                 nonlin = rng.random() < 0.4
@@ -154,6 +181,11 @@ def gen_graph(rng, thorough):
         else:
             a, b = [np.array([float(x)]) for x in rng.sample([0.25, 0.5, 1.0, 2.0, 4.0], 2)]
         v.vals = [a, b]
+    # geometries: any variable that is not the input of a wrapped cuqi Model (whose domain geometry would have to match)
+    model_inputs = {p for w in vs for sp in w.attrs.values() if sp.wrap for p in sp.parents}
+    for v in vs:
+        if v.name not in model_inputs and v.family not in ("GMRF", "LMRF") and rng.random() < 0.3:
+            v.geom = rng.choice(GEOMS)
     return vs, shape
 
 
@@ -176,14 +208,14 @@ def build_density(cuqi, v):
         else:
             kw[attr] = _named_lambda(sp.parents, sp.fn)
     cls = getattr(D, v.family)
-    return cls(**kw, geometry=v.dim, name=v.name)
+    return cls(**kw, geometry=make_geom(v), name=v.name)
 
 
 def leaf(cuqi, v, env):
     """log-density of factor v at a complete assignment of (v, parents): a fresh fully specified distribution"""
     from cuqi import distribution as D
     kw = {attr: sp.value(env) for attr, sp in v.attrs.items()}
-    dist = getattr(D, v.family)(**kw, geometry=v.dim)
+    dist = getattr(D, v.family)(**kw, geometry=make_geom(v))
     x = env[v.name]
     val = dist.logpdf(x if v.dim > 1 else float(np.asarray(x).reshape(-1)[0]))
     return float(np.asarray(val).reshape(-1)[0])
@@ -228,6 +260,13 @@ def describe(cuqi, o):
     return kind_of(cuqi, o) + ":" + (",".join(str(n) for n in names) if names else ".")
 
 
+def _snap(args, kwargs):
+    out = []
+    for a in list(args) + [kwargs[k] for k in kwargs]:
+        out.append(np.array(a, dtype=float, copy=True).tobytes() if isinstance(a, (np.ndarray, list, tuple)) else None)
+    return out
+
+
 def refusal_reason(rem, npos, kwnames):
     """The four conditions of `logd_refuses_iff` (Props/C01_full.lean) for parameter names `rem`:
     returns the first that holds or None for a well-formed call."""
@@ -251,6 +290,12 @@ class Program:
         self.impl = []          # implementation records, aligned with model records
         self.meta = []          # per record: dict(op, kind-before, mode, what, expect)
         self.fails = []         # oracle failures (key, desc, demanded, got, what)
+        self.forms_used = set()
+        self.fixed_forms = set()  # non-default representations of the values passed when fixing variables
+        self.buffers = {}       # name -> writable ndarray the caller passed when fixing it
+        self.scribbled = None   # class of the in-place overwrite done after a conditioning call
+        self.outputs = []       # (returned object, float at return time, token)
+        self.kept = []          # (earlier object, fixed at that time, free names)
 
     # -- graph
     def setup(self, graph=None):
@@ -298,11 +343,43 @@ class Program:
         self.dens_tokens = dens_tokens
         self.fixed = dict(self.pre)          # name -> candidate index, tracked by the harness
         self.desc = {"program": self.idx, "shape": self.shape,
-                     "graph": [f"{v.name}[{v.dim}]~{v.family}({','.join(v.params())})" + ("=data" if v.name in self.pre else "") for v in order]}
+                     "graph": [f"{v.name}[{v.dim}{'/' + v.geom if v.geom else ''}]~{v.family}({','.join(v.params())})" + ("=data" if v.name in self.pre else "") for v in order]}
 
-    def _arg(self, v, i):
+    def _arg(self, v, i, vary=False):
+        """the value passed to the implementation; with vary=True sometimes in another representation of the same numbers"""
         x = v.vals[i]
-        return x.copy() if v.dim > 1 else float(x[0])
+        form = "default"
+        if vary and self.rng.random() < 0.3:
+            integral = bool(np.all(x == np.round(x)))
+            if v.dim > 1:
+                form = self.rng.choice(["list", "f32", "int" if integral else "list", "strided", "negstride", "readonly", "cuqiarray", "tuple"])
+            else:
+                form = self.rng.choice(["int" if integral else "npfloat", "npfloat", "f32", "0d", "1elem"])
+        self.forms_used.add(form)
+        if v.dim > 1:
+            if form == "list":
+                return [float(t) for t in x]
+            if form == "tuple":
+                return tuple(float(t) for t in x)
+            if form == "f32":
+                return x.astype(np.float32)
+            if form == "int":
+                return x.astype(np.int64)
+            if form == "strided":
+                big = np.full(2 * len(x), 99.0); big[::2] = x
+                return big[::2]
+            if form == "negstride":
+                return x[::-1].copy()[::-1]
+            if form == "readonly":
+                y = x.copy(); y.setflags(write=False)
+                return y
+            if form == "cuqiarray":
+                from cuqi.array import CUQIarray
+                return CUQIarray(x.copy())
+            return x.copy()
+        t = float(x[0])
+        return {"int": int(t) if form == "int" else t, "npfloat": np.float64(t), "f32": np.float32(t), "0d": np.array(t),
+                "1elem": np.array([t])}.get(form, t)
 
     def remaining(self):
         return [v.name for v in self.order if v.name not in self.fixed]
@@ -333,10 +410,14 @@ class Program:
         """pos: list of (name-or-None, idx); kw: list of (name, idx); values are candidate indices"""
         obj = self.obj_
         kb = kind_of(self.cuqi, obj)
-        pargs = [self._arg(self.byname[n], i) if n in self.byname else 1.0 for n, i in pos]
-        kwargs = {k: (self._arg(self.byname[k], i) if k in self.byname else 1.0) for k, i in kw}
+        vary = what == "valid"
+        self.forms_used = set()
+        pargs = [self._arg(self.byname[n], i, vary) if n in self.byname else 1.0 for n, i in pos]
+        kwargs = {k: (self._arg(self.byname[k], i, vary) if k in self.byname else 1.0) for k, i in kw}
+        forms = sorted(self.forms_used - {"default"})
         # calls about which the property says nothing are probes: the result is compared, the object kept
         token = ("C;" if what == "valid" else "c;") + enc_pos(pargs) + ";" + enc_kw([(k, kwargs[k]) for k, _ in kw])
+        before = _snap(pargs, kwargs)
         try:
             with quiet():
                 new = obj(*pargs, **kwargs)
@@ -346,6 +427,19 @@ class Program:
             rec = "err:" + type(e).__name__
             ok = False
         self._record(token, rec, {"op": "cond", "kind": kb, "mode": mode, "what": what})
+        if _snap(pargs, kwargs) != before:
+            self.fails.append((f"mutates-caller:cond:{kb}", {**self.desc, "call": token, "record": len(self.impl) - 1}, "arguments unchanged",
+                               "changed", "a conditioning call writes into an array passed by the caller"))
+        if what == "valid" and ok:
+            self.fixed_forms |= set(forms)
+            self.last_fixed = []
+            for (n, _), a in list(zip(pos, pargs)) + [((k, 0), kwargs[k]) for k, _ in kw]:
+                if n in self.byname and n not in self.fixed:
+                    self.last_fixed.append(n)
+                    if isinstance(a, np.ndarray) and a.flags.writeable and a.ndim >= 1:
+                        self.buffers[n] = a
+            if self.scribbled is None and self.rng.random() < 0.3:
+                self.kept.append((obj, dict(self.fixed), self.remaining()))
         if what == "double" and ok:
             rem = self.remaining()
             if any(k in rem[:len(pos)] for k, _ in kw):      # a keyword names a parameter occupied by a positional value
@@ -357,7 +451,7 @@ class Program:
                 for n, i in list(pos) + list(kw):
                     self.fixed.setdefault(n, i)
             else:
-                key = f"cond:{kb}:{mode}:raises"
+                key = f"cond:{kb}:{mode}:raises" + ("" if mode == "keyword:unnamed" else self._formsuffix(forms))
                 self.fails.append((key, {**self.desc, "call": token, "record": len(self.impl) - 1}, "conditioned object", rec,
                                    "a valid conditioning call is refused"))
         if ok and what == "valid":
@@ -367,29 +461,43 @@ class Program:
     def call_logd(self, pos, kw, mode, what, assign=None, raw_pos=None):
         obj = self.obj_
         kb = kind_of(self.cuqi, obj)
+        vary = what == "valid"
+        self.forms_used = set()
         if raw_pos is not None:
             pargs = raw_pos
         else:
-            pargs = [self._arg(self.byname[n], i) if n in self.byname else 1.0 for n, i in pos]
-        kwargs = {k: (self._arg(self.byname[k], i) if k in self.byname else 1.0) for k, i in kw}
+            pargs = [self._arg(self.byname[n], i, vary) if n in self.byname else 1.0 for n, i in pos]
+        kwargs = {k: (self._arg(self.byname[k], i, vary) if k in self.byname else 1.0) for k, i in kw}
+        forms = sorted(self.forms_used - {"default"})
         fv = getattr(self, "_foreign_value", None)
         if fv is not None and fv[0] in kwargs:
             kwargs[fv[0]] = self._arg(fv[1], fv[2])
         token = "E;" + enc_pos(pargs) + ";" + enc_kw([(k, kwargs[k]) for k, _ in kw])
+        before = _snap(pargs, kwargs)
         try:
             with quiet():
                 val = obj.logd(*pargs, **kwargs)
             arr = np.asarray(val, dtype=float).reshape(-1)
             rec = ("val", float(arr[0])) if arr.size == 1 else ("val", [float(t) for t in arr])
+            if arr.size == 1:
+                self.outputs.append((val, float(arr[0]), token))
         except Exception as e:  # noqa
             rec = "err:" + type(e).__name__
         self._record(token, rec, {"op": "logd", "kind": kb, "mode": mode, "what": what})
+        if _snap(pargs, kwargs) != before:
+            self.fails.append((f"mutates-caller:logd:{kb}", {**self.desc, "call": token, "record": len(self.impl) - 1}, "arguments unchanged",
+                               "changed", "an evaluation writes into an array passed by the caller"))
         d = {**self.desc, "call": token, "record": len(self.impl) - 1, "fixed": dict(self.fixed)}
         if what == "valid":
             full = dict(self.fixed); full.update(assign)
             want = self.total(full)
             if not (isinstance(rec, tuple) and isinstance(rec[1], float) and close(rec[1], want, 1e-9)):
-                key = f"logd:{kb}:{mode}:" + ("raises" if isinstance(rec, str) else "value")
+                key = f"logd:{kb}:{mode}:" + ("raises" if isinstance(rec, str) else "value") + self._formsuffix(forms)
+                if self.scribbled and not isinstance(rec, str):
+                    # the caller overwrote (in place) an array it had passed when fixing a variable: the object must
+                    # still stand for the values it was given
+                    key = f"inplace:{self.scribbled}:logd"
+                    d["overwritten"] = self.scribbled_name
                 self.fails.append((key, d, want, rec if isinstance(rec, str) else rec[1],
                                    "log-density of the conditioned object is not the joint log-density at the complete assignment"))
         else:
@@ -601,9 +709,12 @@ class Program:
                 self.gen_eval()
             else:
                 self.gen_cond()
+                if rng.random() < 0.25:
+                    self.scribble()
                 if rng.random() < 0.7:
                     self.gen_eval()
         self.gen_eval()
+        self.finish()
         # every final object (of whatever kind) also sees the malformed stream
         for m in rng.sample(["missing", "unknown", "double", "toomany", "renamed", "double-shift", "fixed-only"], 2):
             if kind_of(self.cuqi, self.obj_) == "_StackedJointDistribution":
@@ -728,6 +839,60 @@ class Program:
                                    "get_components() does not hand out the observed data"))
         self.prob_fix(False, [target])         # data already set: refused (tie)
         self.gen_eval()                        # the target itself, as any other reduced object
+
+    def _formsuffix(self, forms):
+        """input class of a failure: the non-float64 / non-plain-ndarray representations involved (this call and the fixed values)"""
+        fs = sorted(set(forms) | self.fixed_forms)
+        return (":form=" + "+".join(fs)) if fs else ""
+
+    def scribble(self):
+        """Gibbs-style state buffer: overwrite in place ONE array that was passed when fixing a variable in the last call"""
+        cands = [n for n in getattr(self, "last_fixed", []) if n in self.buffers]
+        if not cands or self.scribbled:
+            return
+        n = self.rng.choice(cands)
+        v = self.byname[n]
+        flags = []
+        flags.append("evaluated" if all(p in self.fixed for p in v.params()) else "likdata")
+        for w in self.vs:
+            if w.name == n:
+                continue
+            for sp in w.attrs.values():
+                if n in sp.parents:
+                    if getattr(sp, "identity", False):
+                        flags.append("alias")          # the attribute IS the caller's array
+                    elif any(p not in self.fixed for p in sp.parents):
+                        flags.append("partial")        # functools.partial keeps the caller's array
+        self.scribbled = "+".join(sorted(set(flags)))
+        self.scribbled_name = n
+        self.buffers[n][...] = self.buffers[n] * 3.0 + 7.0
+        self.kept = []
+
+    def finish(self):
+        """G8: everything returned earlier must still be what it was; earlier objects still evaluate as they did"""
+        for val, f0, token in self.outputs:
+            now = float(np.asarray(val, dtype=float).reshape(-1)[0])
+            if now != f0:
+                self.fails.append(("retained:logd-output", {**self.desc, "call": token}, f0, now,
+                                   "a number returned by logd changed after later calls (the returned array is a view of internal state)"))
+                break
+        for obj, fixed, rem in self.kept[:3]:
+            assign = {n: 0 for n in rem}
+            full = dict(fixed); full.update(assign)
+            want = self.total(full)
+            kb = kind_of(self.cuqi, obj)
+            try:
+                with quiet():
+                    if kb == "_StackedJointDistribution":
+                        got = obj.logd(np.concatenate([self.byname[n].vals[0] for n in rem]) if rem else np.zeros(0))
+                    else:
+                        got = obj.logd(**{n: self._arg(self.byname[n], 0) for n in rem})
+                got = float(np.asarray(got, dtype=float).reshape(-1)[0])
+            except Exception as e:  # noqa
+                got = "err:" + type(e).__name__
+            if not (isinstance(got, float) and close(got, want, 1e-9)):
+                self.fails.append((f"retained:object:{kb}:logd" + ((":raises" + self._formsuffix([])) if isinstance(got, str) else ""), {**self.desc, "fixed": fixed}, want, got,
+                                   "an object obtained earlier no longer evaluates to its joint log-density after later conditioning calls on it"))
 
     def line(self):
         return "prog " + " ".join(self.dens_tokens) + " -- " + " ".join(self.tokens)
